@@ -220,6 +220,12 @@ def run(rep, tier):
         hits = [(m, sv, n) for m, sv, n in issues if re.search(pat, m)]
         rep.check(bool(hits) and all(sv == 'USCXML_ISSUE_FATAL' for _, sv, _ in hits), 'R19.13', what, val.where(), 'the validator %s for: %s' % (
             'has a fatal issue' if hits else 'has NO issue', what) + ('' if hits else ' -- such a document passes validation and the engines end up with a compound state without active child / an empty configuration'))
+    # a history among the targets stands for states below its parent
+    hlc = next((f_ for f_ in fb.funcs.values() if f_.q.endswith('hasLegalCompletion')), None)
+    hist_aware = hlc is not None and any(x.get('callee', {}).get('q', '').split('::')[-1] in ('isHistory', 'getEffectiveTargetStates') for f_ in [hlc] + [
+        fb.funcs[n_['callee']['m']] for n_ in hlc.walk() if n_.get('callee', {}).get('m') in fb.funcs and fb.funcs[n_['callee']['m']].file == hlc.file] for x in f_.walk())
+    rep.check(hist_aware, 'R19.13', 'history among the targets', hlc.where() if hlc else val.where(), 'hasLegalCompletion %s' % ('dereferences history targets' if hist_aware else
+              'treats a <history> target as an ordinary state under its parent: target="Hp b" (Hp the deep history of parallel P, b inside P) is accepted because the least common ancestor is a parallel; the engines then enter b and the default of its region: two active children'))
     # ids are judged per machine: the node sets are assembled without descending into nested <scxml>, or the id table is filtered
     asm = next((f_ for f_ in fb.funcs.values() if f_.q.endswith('assembleNodeSets')), None)
     per_machine = asm is not None and (any(x['k'] == 'StringLiteral' and x.get('str') == 'scxml' for x in asm.walk()) or any(x.get('callee', {}).get('q', '').endswith('areFromSameMachine') for x in asm.walk()))
